@@ -104,14 +104,39 @@ inductive Coercible (cfg : Cfg) : Ty → Ty → Prop
       Coercible cfg (.map k a b) (.map k' a' b')
   | model {sc dc : Nat} {sa da : List Ty} {sfs dfs : List Field} :
       cfg.shape sc sa = some sfs → cfg.shape dc da = some dfs →
-      (∀ d ∈ dfs, FieldCoercible cfg sfs d) → Coercible cfg (.cls sc sa) (.cls dc da)
-/-- one destination field against the fields of the source model -/
-inductive FieldCoercible (cfg : Cfg) : List Field → Field → Prop
-  | linked {sfs : List Field} {s d : Field} : s ∈ sfs → s.name = d.name →
-      Coercible cfg s.ty d.ty → FieldCoercible cfg sfs d
-  | skipped {sfs : List Field} {d : Field} : d.required = false → (∀ s ∈ sfs, s.name ≠ d.name) →
-      cfg.policy.allowed d.name = true → FieldCoercible cfg sfs d
+      (∀ d ∈ dfs, FieldCoercible cfg dc sfs d) → Coercible cfg (.cls sc sa) (.cls dc da)
+/-- one destination field (of the destination class `dc`) against the fields of the source model;
+    the policy is asked about *this* field of *this* class -/
+inductive FieldCoercible (cfg : Cfg) : Nat → List Field → Field → Prop
+  | linked {dc : Nat} {sfs : List Field} {s d : Field} : s ∈ sfs → s.name = d.name →
+      Coercible cfg s.ty d.ty → FieldCoercible cfg dc sfs d
+  | skipped {dc : Nat} {sfs : List Field} {d : Field} : d.required = false → (∀ s ∈ sfs, s.name ≠ d.name) →
+      cfg.policy.allowed dc d = true → FieldCoercible cfg dc sfs d
 end
+
+/-! ### The unlinked-optional policy, stated independently of `resolveRules` / `planFields` -/
+
+/-- the policy provider of the user recipe that *applies* to the destination field `f` of the
+    class `owner`: the first one in recipe order whose predicate matches that field's location -/
+def RuleApplies (owner : Nat) (f : Field) (rs : List PolicyRule) (r : PolicyRule) : Prop :=
+  ∃ pre post, rs = pre ++ r :: post ∧ (∀ q ∈ pre, q.pred.holds owner f = false) ∧
+    r.pred.holds owner f = true
+
+/-- verdict of the policy for one field: the applying rule's, or the closing builtin policy's
+    when no rule of the user recipe matches the field -/
+def PolicyVerdict (owner : Nat) (f : Field) (rs : List PolicyRule) (allow : Bool) : Prop :=
+  (∃ r, RuleApplies owner f rs r ∧ r.allow = allow) ∨
+  ((∀ q ∈ rs, q.pred.holds owner f = false) ∧ Generated.builtinUnlinkedOptionalAllowed = allow)
+
+/-- one destination field, on its own, admits a converter: it is linked to the source field of the
+    same name and the nested request is answered, or it has no source, is optional and the policy
+    asked about **this** field allows leaving it out -/
+inductive FieldAccepted (rec : Ty → Ty → Answer) (allowed : Field → Bool) (sfs : List Field)
+    (d : Field) : Prop
+  | linked {s : Field} {c : Coercer} : findSource d.name sfs = some s → rec s.ty d.ty = .ok c →
+      FieldAccepted rec allowed sfs d
+  | skipped : (∀ s ∈ sfs, s.name ≠ d.name) → d.required = false → allowed d = true →
+      FieldAccepted rec allowed sfs d
 
 /-- Assumptions on the class table (`issubclass`, shapes, defaults).  The harness checks
     them on the concrete table of every run. -/
